@@ -119,9 +119,18 @@ def plant_core(rng, cfg, aseq_norm):
 
 def gen_read(rng, cfg, aseq_norm, short_bias=False):
     """Random read or read with a planted (possibly damaged/truncated) adapter occurrence."""
-    alpha_r = rng.choice(["ACGT", "ACGT", "ACGT", "AC", "ACGTN", "acgtACGTN", "ACGTRYN"])
+    alpha_r = rng.choice(["ACGT", "ACGT", "ACGT", "AC", "ACGTN", "acgtACGTN", "ACGTRYN", "ACGTUX.-*n", "ACGTacgtuU"])
     mode = rng.random()
     m = len(aseq_norm)
+    if short_bias and (cfg["type"] == "anywhere" or cfg.get("fa")) and cfg["indels"] and m >= 8 and rng.random() < 0.25:
+        # the read lies inside the adapter but insertions make it as long as (or longer than) the adapter
+        core = plant_core(rng, cfg, aseq_norm)
+        inner = list(core[1:-1] if rng.random() < 0.7 else core[rng.randint(1, 3):m - rng.randint(1, 3)])
+        k = rng.randint(1, 4)
+        for j in range(k):
+            pos = (len(inner) * (j + 1)) // (k + 1) + rng.randint(-1, 1)
+            inner.insert(max(0, min(len(inner), pos)), rng.choice("ACGT"))
+        return "".join(inner)
     if short_bias and mode < 0.35:
         # reads shorter than the adapter (window clipping, read inside adapter)
         core = plant_core(rng, cfg, aseq_norm)
